@@ -84,6 +84,20 @@ def _drive(args):
                 e = pev('pvv', pin, pan, idx=idx, key=key, kind=kind, out=pinc.safe_digits(out_) if kind == 'ok' else ())
                 e['_observed'] = {'object': what, 'result': out_ if kind != 'ok' else None}
                 ev.append(e)
+        if tid % 3 == 2:
+            # one card-less (format 4) object asked for the PVV of one card and then of another: each answer is that card's
+            pan2 = pan[:-5] + '%05d' % ((int(pan[-5:]) + 13579) % 100000)
+            o4 = pinc.Aes4(pin)
+            for p_ in (pan, pan2, pan):
+                kind, out_ = call(lambda: o4.to_pvv(key.hex(), key_index=idx, card_number=p_))
+                ev.append(pev('pvv', pin, p_, idx=idx, key=key, kind=kind, out=pinc.safe_digits(out_) if kind == 'ok' else ()))
+        if tid % 4 == 3:
+            # the hexadecimal key text arriving as bytes (a key file opened in binary mode) instead of str
+            for kb in (key.hex().encode('ascii'), bytearray(key.hex().encode('ascii'))):
+                kind, out_ = call(lambda: pinblock.calculate_pvv(pin, kb, idx, pan))
+                e = pev('pvv', pin, pan, idx=idx, key=key, kind=kind, out=pinc.safe_digits(out_) if kind == 'ok' else ())
+                e['_observed'] = {'key_given_as': type(kb).__name__, 'result': out_ if kind != 'ok' else None}
+                ev.append(e)
         # key check values and key components
         k16 = bytes(r.randrange(256) for _ in range((16, 24)[tid % 2]))
         ln = r.choice((6, 6, 4, 1, 16, r.randrange(1, 17)))
